@@ -84,6 +84,7 @@ theorem applyRes_noIdle (cfg : Cfg) (pol : Policy) (step : Nat) (tickEv : Ev) (d
     simp only [applyRes]
     split
     · simp [List.any_append, h, isIdlePub]
+    · simp [List.any_append, h, isIdlePub]
     · split
       · split <;> simp [List.any_append, h, isIdlePub]
       · simp [List.any_append, h, isIdlePub]
